@@ -18,7 +18,7 @@ prev = []
 for d in sorted(glob.glob('/verif/seeded/%s-*' % pid)):
     n = os.path.join(d, 'notes.md')
     if os.path.exists(n):
-        prev.append('--- earlier change %s ---\n%s' % (os.path.basename(d), open(n).read()[:1800]))
+        prev.append('--- earlier change %s ---\n%s' % (os.path.basename(d), open(n).read()[:1300]))
 if prev:
     txt += ('\nEARLIER SEEDED CHANGES FOR THIS PROPERTY (already done by others - do NOT repeat them or close variants; '
             'attack OTHER clauses of the property, other files among the anchors, other mechanisms, other variants/'
